@@ -1,13 +1,13 @@
 #!/bin/sh
 # Runs every check of one tier sequentially and validates the evidence (development aid).
 tier=${1:-quick}
-cd /verif
+cd "$(dirname "$0")"
 rc=0
 for p in $(python3 -c "import json;print(' '.join(sorted(json.load(open('checks.json'))['checks'])))"); do
-  ./vcheck $p $tier > /tmp/vcheck-$p.out 2>&1
+  ./vcheck $p $tier > /tmp/vcheck-$tier-$p.out 2>&1
   code=$?
-  tail -1 /tmp/vcheck-$p.out | sed "s/^/[rc=$code] /"
-  grep -h "^VIOLATION\|INCONCLUSIVE" /tmp/vcheck-$p.out
+  tail -1 /tmp/vcheck-$tier-$p.out | sed "s/^/[rc=$code] /"
+  grep -h "^VIOLATION\|INCONCLUSIVE" /tmp/vcheck-$tier-$p.out
   [ $code -ne 0 ] && rc=1
 done
 python3-vt tools_validate.py | tail -3
